@@ -10,6 +10,7 @@ import (
 	"net/http/httptest"
 	"strings"
 	"sync"
+	"time"
 
 	connect "github.com/bufbuild/connect-go"
 	"google.golang.org/protobuf/encoding/protowire"
@@ -302,12 +303,108 @@ func streamE2E(c *Ctx) {
 	}
 	protoCodecE2E(c)
 	foreignPeersE2E(c)
+	duplexBlockedSendE2E(c)
 	// a model-comparable op so that the stream is never empty for the differ
 	c.Emit("code.str 1", hx([]byte(connect.CodeCanceled.String())), false)
 }
 
 // protoCodecE2E: the real proto and JSON codecs with gzip, zero-valued messages, sizes that
 // straddle the pool seed (512 B), in both directions through the typed wrappers.
+// duplexBlockedSendE2E: full duplex means what it says - while a Send is held up by flow control
+// (the handler is not reading yet), messages the handler has already sent are received; when the
+// handler then reads, everything sent arrives intact and in order.
+func duplexBlockedSendE2E(c *Ctx) {
+	for _, proto := range []string{"connect", "grpc", "grpcweb"} {
+		desc := proto + " bidi over HTTP/2: the handler sends one message and only later starts reading; the client's 4 x 2 MiB Sends run in one goroutine, its Receive in another"
+		c.Count("e2e:duplex-blocked-send")
+		got := safely(func() string {
+			startReading := make(chan struct{})
+			var sizes []int
+			h := connect.NewBidiStreamHandler("/s/m", func(ctx context.Context, s *connect.BidiStream[[]byte, []byte]) error {
+				if err := s.Send(&[]byte{42}); err != nil {
+					return err
+				}
+				select {
+				case <-startReading:
+				case <-ctx.Done():
+					return ctx.Err()
+				}
+				for {
+					m, err := s.Receive()
+					if err != nil {
+						break
+					}
+					sizes = append(sizes, len(*m)*1000+int((*m)[0]))
+				}
+				return s.Send(&[]byte{43})
+			}, connect.WithCodec(rawCodec{"raw"}))
+			srv := httptest.NewUnstartedServer(h)
+			srv.EnableHTTP2 = true
+			srv.StartTLS()
+			defer srv.Close()
+			opts := []connect.ClientOption{connect.WithCodec(rawCodec{"raw"})}
+			if proto == "grpc" {
+				opts = append(opts, connect.WithGRPC())
+			} else if proto == "grpcweb" {
+				opts = append(opts, connect.WithGRPCWeb())
+			}
+			cl := connect.NewClient[[]byte, []byte](srv.Client(), srv.URL+"/s/m", opts...)
+			ctx, cancel := context.WithTimeout(context.Background(), 20*time.Second)
+			defer cancel()
+			st := cl.CallBidiStream(ctx)
+			sendDone := make(chan error, 1)
+			go func() {
+				var err error
+				for i := 0; i < 4 && err == nil; i++ {
+					big := bytes.Repeat([]byte{byte(i + 1)}, 2<<20)
+					err = st.Send(&big)
+				}
+				if err == nil {
+					err = st.CloseRequest()
+				}
+				sendDone <- err
+			}()
+			time.Sleep(300 * time.Millisecond) // let the sender run into flow control
+			first := make(chan string, 1)
+			go func() {
+				m, err := st.Receive()
+				if err != nil {
+					first <- "error: " + err.Error()
+					return
+				}
+				first <- fmt.Sprint(*m)
+			}()
+			var res string
+			select {
+			case res = <-first:
+			case <-time.After(4 * time.Second):
+				res = "Receive did not return within 4s while a Send was held up"
+			}
+			close(startReading)
+			if res != "[42]" {
+				cancel()
+				<-sendDone
+				return res
+			}
+			if err := <-sendDone; err != nil {
+				return "send: " + err.Error()
+			}
+			m, err := st.Receive()
+			if err != nil || len(*m) != 1 || (*m)[0] != 43 {
+				return fmt.Sprintf("last message: %v %v", m, err)
+			}
+			_ = st.CloseResponse()
+			if fmt.Sprint(sizes) != fmt.Sprint([]int{(2<<20)*1000 + 1, (2<<20)*1000 + 2, (2<<20)*1000 + 3, (2<<20)*1000 + 4}) {
+				return fmt.Sprintf("the handler received %v", sizes)
+			}
+			return "ok"
+		})
+		if got != "ok" {
+			c.Fail("e2e-duplex", desc, got, "sending and receiving on one bidi stream got in each other's way")
+		}
+	}
+}
+
 func protoCodecE2E(c *Ctx) {
 	sizes := []int{0, 1, 511, 512, 513, 5000}
 	if c.Thorough() {
@@ -419,6 +516,87 @@ func foreignPeersE2E(c *Ctx) {
 			c.Count("e2e:foreign-client")
 			if got != fmt.Sprintf("status=200 seen=%q", vals) {
 				c.Fail("e2e-foreign-peer", desc, got, "a conformant foreign client's messages did not reach user code intact and in order")
+			}
+		}
+	}
+	// (a'') a foreign client that offers NO message compression in the protocol's header (but,
+	// being a browser or sitting behind one, carries HTTP's own Accept-Encoding) gets its
+	// messages back in a form it can read: nothing compressed, nothing labelled compressed
+	for _, ct := range []string{"application/grpc-web+proto", "application/grpc-web", "application/grpc+proto", "application/connect+proto", "application/proto"} {
+		for _, kind := range []string{"unary", "server"} {
+			if (ct == "application/proto") != (kind == "unary" && ct == "application/proto") || (ct == "application/connect+proto" && kind == "unary") {
+				continue
+			}
+			long := strings.Repeat("browser ", 200)
+			var h http.Handler
+			if kind == "unary" {
+				h = connect.NewUnaryHandler("/s/m", func(ctx context.Context, r *connect.Request[wrapperspb.StringValue]) (*connect.Response[wrapperspb.StringValue], error) {
+					return connect.NewResponse(&wrapperspb.StringValue{Value: long}), nil
+				})
+			} else {
+				h = connect.NewServerStreamHandler("/s/m", func(ctx context.Context, r *connect.Request[wrapperspb.StringValue], s *connect.ServerStream[wrapperspb.StringValue]) error {
+					_ = s.Send(&wrapperspb.StringValue{Value: long})
+					return s.Send(&wrapperspb.StringValue{Value: "b"})
+				})
+			}
+			desc := fmt.Sprintf("foreign client without the protocol's accept-encoding header but with Accept-Encoding: gzip, deflate, br; Content-Type %s, %s", ct, kind)
+			got := safely(func() string {
+				b, _ := proto.Marshal(&wrapperspb.StringValue{Value: "q"})
+				body := frame(0, b)
+				if ct == "application/proto" {
+					body = b
+				}
+				req := httptest.NewRequest(http.MethodPost, "/s/m", bytes.NewReader(body))
+				req.ProtoMajor, req.ProtoMinor, req.Proto = 2, 0, "HTTP/2.0"
+				req.Header.Set("Content-Type", ct)
+				if ct != "application/proto" { // for unary Connect, Accept-Encoding IS the protocol's header
+					req.Header.Set("Accept-Encoding", "gzip, deflate, br")
+				}
+				rec := httptest.NewRecorder()
+				h.ServeHTTP(rec, req)
+				for _, k := range []string{"Grpc-Encoding", "Connect-Content-Encoding", "Content-Encoding"} {
+					if v := rec.Header().Get(k); v != "" && v != "identity" {
+						return fmt.Sprintf("response names %s: %s", k, v)
+					}
+				}
+				out := rec.Body.Bytes()
+				if ct == "application/proto" {
+					var m wrapperspb.StringValue
+					if err := proto.Unmarshal(out, &m); err != nil || m.Value != long {
+						return "unary body is not the message"
+					}
+					return "ok"
+				}
+				var vals []string
+				for len(out) >= 5 {
+					n := int(out[1])<<24 | int(out[2])<<16 | int(out[3])<<8 | int(out[4])
+					if len(out) < 5+n {
+						return "truncated envelope"
+					}
+					if out[0]&1 != 0 {
+						return fmt.Sprintf("envelope with flags %#x is marked compressed", out[0])
+					}
+					if out[0] == 0 {
+						var m wrapperspb.StringValue
+						if err := proto.Unmarshal(out[5:5+n], &m); err != nil {
+							return "undecodable message"
+						}
+						vals = append(vals, m.Value)
+					}
+					out = out[5+n:]
+				}
+				want := []string{long}
+				if kind == "server" {
+					want = []string{long, "b"}
+				}
+				if fmt.Sprint(vals) != fmt.Sprint(want) {
+					return fmt.Sprintf("%d messages decoded, want %d", len(vals), len(want))
+				}
+				return "ok"
+			})
+			c.Count("e2e:foreign-client")
+			if got != "ok" {
+				c.Fail("e2e-foreign-peer", desc, got, "the handler answered in a form this peer did not offer to read")
 			}
 		}
 	}
